@@ -8,7 +8,7 @@ func vpC04N() int {
 	if vp.Tier() == 0 {
 		return 5
 	}
-	return 7
+	return 6 // (7 did not finish inside the thorough budget next to the other C04 harnesses)
 }
 
 // every text of up to N bytes over all 256 byte values: no panic; if the
